@@ -34,6 +34,8 @@ class Run(object):
     def guard(self, group, kind, case_fn, thunk, fn=None, timeout=10, timeout_ok=False):
         """run thunk (-> (ok, expected, observed, key)) with a wall-clock limit; exceptions are violations of the
         default contract 'no exception escapes'"""
+        if sum(1 for v in self.violations if v['check'] == group) >= 3:
+            self.groups.setdefault(group + ':skipped-after-3-violations', {'n': 0})['n'] += 1; return False      # fail fast
         def on_alarm(*_): raise Timeout()
         old = signal.signal(signal.SIGALRM, on_alarm); signal.alarm(timeout)
         try:
